@@ -543,6 +543,23 @@ impl Runner {
         let op = match &first_offer {
             AssetRef::Native(d) => {
                 let mut funds = vec![Fund { denom: d.clone(), amount: u(input) }];
+                if shape != 0 {
+                    // malformed shapes: also fund every other native offer asset that no earlier
+                    // hop produces, so that a wrongly accepted route can actually run
+                    let mut produced: Vec<AssetRef> = vec![];
+                    for h in hops.iter() {
+                        if let AssetRef::Native(od) = &h.offer {
+                            if !produced.contains(&h.offer) && od != d && !funds.iter().any(|f| &f.denom == od) {
+                                let bo = self.bal(&crate::ledger::native_key(od), &who);
+                                if bo > 0 {
+                                    funds.push(Fund { denom: od.clone(), amount: u(self.amount_upto(bo.min(input.max(1)))) });
+                                }
+                            }
+                        }
+                        produced.push(h.ask.clone());
+                    }
+                    funds.sort_by(|a, b| a.denom.cmp(&b.denom));
+                }
                 if self.rng.chance(5, 100) {
                     // an extra coin the router does not need
                     if let Some(o) = self.other_denom(&[d.as_str()]) {
@@ -601,11 +618,23 @@ impl Runner {
             // ownership transfer (to another actor, later possibly back)
             2 => {
                 let new = self.random_actor();
+                // sometimes the same message also (re)sets the code ids, to valid values
+                let (t, p) = match self.rng.weighted(&[50, 20, 15, 15]) {
+                    0 => (None, None),
+                    1 => (Some(crate::world::CODE_CW20), Some(crate::world::CODE_PAIR)),
+                    2 => (None, Some(CODE_PAIR_V2)),
+                    _ => (Some(crate::world::CODE_CW20), None),
+                };
+                let keep_owner = self.rng.chance(15, 100);
                 Some(Proto {
                     sender: owner,
                     pre: vec![],
-                    op: Op::UpdateConfig { owner: Some(AddrRef::Actor(new)), token_code_id: None, pair_code_id: None },
-                    note: "owner transfer-ownership".into(),
+                    op: Op::UpdateConfig {
+                        owner: if keep_owner { None } else { Some(AddrRef::Actor(new)) },
+                        token_code_id: t,
+                        pair_code_id: p,
+                    },
+                    note: "owner update-config".into(),
                 })
             }
             // migrate a pair (restart on the same code over surviving storage)
@@ -628,7 +657,7 @@ impl Runner {
             4 => {
                 let assets = self.all_assets();
                 let np = self.sim.model.pairs.len();
-                let set: [AssetRef; 2] = match self.rng.weighted(&[30, 20, 15, 15, 10, 10]) {
+                let set: [AssetRef; 2] = match self.rng.weighted(&[30, 20, 15, 15, 10, 10, 8]) {
                     0 if np > 0 => {
                         let p = &self.sim.model.pairs[self.rng.pick_idx(np)];
                         if self.rng.chance(50, 100) { [p.refs[1].clone(), p.refs[0].clone()] } else { p.refs.clone() }
@@ -640,6 +669,11 @@ impl Runner {
                     2 => [AssetRef::Native(format!("unreg{}", self.rng.below(3))), self.rng.pick(&assets).clone()],
                     3 => [AssetRef::Raw(format!("deadtoken{}", self.rng.below(3))), self.rng.pick(&assets).clone()],
                     4 => [AssetRef::Raw(self.sim.model.router.clone()), self.rng.pick(&assets).clone()],
+                    6 if !self.sim.model.tokens.is_empty() => {
+                        // the same token twice, differing only by letter case
+                        let t = self.rng.pick_idx(self.sim.model.tokens.len());
+                        [AssetRef::Raw(self.sim.model.tokens[t].to_uppercase()), AssetRef::Token(t)]
+                    }
                     _ => [AssetRef::Raw(self.sim.model.rogue.clone()), self.rng.pick(&assets).clone()],
                 };
                 let op = self.create_pair_op(set);
